@@ -349,6 +349,36 @@ func (a *originAnalysis) boundToGlobal(o string, depth int, seen map[string]bool
 	return "", ""
 }
 
+// closureMadeAtInit: fn is a closure all of whose MakeClosure sites run during package initialisation — in the
+// package initialiser itself or in a function that is only called from it. Returns the name of that site.
+func (c *Ctx) closureMadeAtInit(fn *ssa.Function) string {
+	if fn.Parent() == nil {
+		return ""
+	}
+	isInit := func(f *ssa.Function) bool { return f != nil && f.Name() == "init" && f.Synthetic != "" }
+	site := fn.Parent()
+	if isInit(site) {
+		return fnName(site)
+	}
+	n := 0
+	for _, g := range c.Funcs {
+		for _, b := range g.Blocks {
+			for _, in := range b.Instrs {
+				if call, ok := in.(ssa.CallInstruction); ok && call.Common().StaticCallee() == site {
+					if !isInit(g) {
+						return ""
+					}
+					n++
+				}
+			}
+		}
+	}
+	if n == 0 {
+		return ""
+	}
+	return fnName(site) + ", called from the package initialiser"
+}
+
 func (c *Ctx) observerRoots() []*ssa.Function {
 	return []*ssa.Function{
 		c.method(pkgDriver, "Base", "Render"), c.method(pkgDriver, "Base", "RenderParam"),
@@ -448,6 +478,10 @@ func rulePURG(c *Ctx, r *Report) {
 			for o := range os {
 				if strings.HasPrefix(o, "global:") {
 					r.bad(rule, fnName(fn)+"|"+w.what, c.instrPos(w.in), fmt.Sprintf("%s writes package-level state outside initialisation (%s, origin %s): concurrent calls race and results depend on call history", fnName(fn), w.what, o))
+				} else if strings.HasPrefix(o, "freevar:") && c.closureMadeAtInit(fn) != "" {
+					// a closure built once, during package initialisation (a factory called from a package-level
+					// table): what it captured is shared by every later call of it
+					r.bad(rule, fnName(fn)+"|"+w.what, c.instrPos(w.in), fmt.Sprintf("%s writes through its captured variable %s (%s), and the closure is made once, during package initialisation (%s): the captured memory is shared by all calls — concurrent calls race and results depend on call history", fnName(fn), strings.TrimPrefix(o, "freevar:"), w.what, c.closureMadeAtInit(fn)))
 				} else if g, via := oa.boundToGlobal(o, 0, map[string]bool{}); g != "" {
 					// the written object is an argument or the receiver: some caller passes a package-level object
 					r.bad(rule, fnName(fn)+"|"+w.what, c.instrPos(w.in), fmt.Sprintf("%s writes through %s (%s), and %s passes the package-level %s there: state shared by all calls is modified outside initialisation — concurrent calls race and results depend on call history", fnName(fn), strings.SplitN(o, ":", 2)[0], w.what, via, strings.TrimPrefix(g, "global:")))
